@@ -26,7 +26,7 @@ class JobCallbackHandler:
     def remove(self, callback: Callable[[JobBase], Any]) -> bool:
         if callback not in self._callbacks:
             return False
-        self._callbacks = tuple(cb for cb in self._callbacks if cb is not callback)
+        self._callbacks = tuple(cb for cb in self._callbacks if cb != callback)
         return True
 
     def clear(self) -> None:
